@@ -729,3 +729,9 @@ impl<'a> ConstraintValidator<'a> {
         Ok(())
     }
 }
+
+/// Verification-only re-export of the private DEFAULT-date converter (off unless the feature is enabled).
+#[cfg(feature = "kahflane_turdb_verif")]
+pub mod verif_hooks {
+    pub fn days_from_ymd(year: i32, month: u32, day: u32) -> i32 { super::ConstraintValidator::days_from_ymd(year, month, day) }
+}
